@@ -95,6 +95,8 @@ func (e *SpecEnv) typeByName(n string) types.Type {
 		return textType
 	case "bytes": // a mathematical byte array (index -> byte)
 		return types.NewArray(types.Typ[types.Uint8], 1<<40)
+	case "ints": // a mathematical array of ints (index -> int), e.g. the value of a [N]int field
+		return types.NewArray(types.Typ[types.Int], 1<<40)
 	case "ByteSlice":
 		return types.NewSlice(types.Typ[types.Uint8])
 	case "interface{}", "any":
